@@ -71,6 +71,15 @@ CHECKS = {
          "SCM on every ADMG with 2-3 nodes and sampled 4-6 node ADMGs, every district T and bidirected-connected C, two topological orders, Q[T] given both as the Lemma-1/4 product and, "
          "where valid, as the single conditional P(T | V - T).",
          TRUST + "; trusted mathematics: Tian & Pearl 2003 Lemmas 1, 3, 4 (validated numerically by the oracle)", TECH + " + bounded exact-SCM evaluation", "DESIGN.md §5 C17"),
+ "C12": ("other", "Three layers. (1) Proved (QF_UFNRA): the operators the parser applies when it evaluates the printed text (`*`, `/` of every expression class, Product.safe) denote "
+         "product and quotient (shared with C13). (2) Exhaustive over a syntactic-class abstraction: the real to_y0 printers of Product, Fraction, Sum, One, Zero are run on all 10,395 "
+         "expression trees of depth <= 3 over opaque atomic leaves and the text is read back with CPython's own parser: it parses, uses only names parse_y0 knows, and -- read with ordinary "
+         "precedence -- means what the object means; since the syntactic class of a printer's output does not depend on what lies below depth 1 this covers every parent/child/grandchild "
+         "combination (inductive, relative to Python's grammar being an operator-precedence grammar). (3) Bounded: parse_y0(str(e)) on sampled concrete expressions (value marks, "
+         "intervention subscripts, population tags, Q factors) judged by exact evaluation; object equality and text fix-point on the un-nested-division family. The leaf printers "
+         "(Variable, CounterfactualVariable, Distribution, Probability/PopulationProbability, QFactor) and the probability builders are covered by (3) only.",
+         TRUST + "; Python's expression grammar is an operator-precedence grammar; variable names are those parse_y0 predefines (A-Z, A0-Z9, Pi, ...), as in the property's 'built through the public DSL'",
+         "contract-based proof of the operators + exhaustive printer/parser check over syntactic classes (CPython's parser as oracle) + bounded round trips", "DESIGN.md §5 C12"),
 }
 NA = {
 }
